@@ -214,7 +214,7 @@ PROPS.update({
         ],
     },
     "C12": {
-        "level_text": 'Bounded-exhaustive exploration: same matrix/background menu as C11; queries min-1, every distinct attainable score (at most 600 evenly ranked, 2400 thorough), each +1e-4, midpoints, max+1; EVERY refinement step of approximate_pvalue with g >= 1e-9 and the final pvalue() are compared with the brute-force tail using exactly the statement\'s margins (M+1)g / (M+2)g; panics (incl. assert!(converged)) and >40 refinement steps are violations.',
+        "level_text": 'Bounded-exhaustive exploration: same matrix/background menu as C11; queries min-1, every distinct attainable score (at most 600 evenly ranked, 2400 thorough), each +1e-4, midpoints, max+1; EVERY refinement step of approximate_pvalue with g >= 1e-9 and the final pvalue() are compared with the brute-force tail using exactly the statement\'s margins (M+1)g / (M+2)g; panics (incl. assert!(converged)) and >40 refinement steps are violations. Plus `reuse`: ALL query histories of length <= 3 (4 thorough) over 11 p-value / score queries (partial and full refinements) on ONE TfmPvalue object, the last answer compared with a fresh object's.',
         "level_note": 'Trusted: brute-force oracle; 1e-6 allowance on probabilities; for the final value only, the score margin has the floor 64 ulp(|s| + sum of row ranges). The statement bounds pmin only from below and pmax only from above, so single-key off-by-one mutations of the integer window are inside its slack (measured).',
         "technique": 'bounded-exhaustive enumeration of matrices x backgrounds x scores x every refinement step against a brute-force exact distribution',
         "level": "exploration", "package": "vx-pval", "profiles": ["rel", "chk"],
@@ -226,7 +226,7 @@ PROPS.update({
         ],
     },
     "C13": {
-        "level_text": 'Bounded-exhaustive exploration: same menu; p = every attainable tail probability (ranked cap as C12), each x(1-1e-7) and x(1+1e-7), geometric midpoints, 1e-9, 1e-6, .5, .999; EVERY refinement step of approximate_score with g >= 1e-9 and the final score(): P(S>=t+d) <= p and P(S>=u-d) >= p for the largest attainable u < t-d, d = (M+2)g; panics and >40 steps are violations.',
+        "level_text": 'Bounded-exhaustive exploration: same menu; p = every attainable tail probability (ranked cap as C12), each x(1-1e-7) and x(1+1e-7), geometric midpoints, 1e-9, 1e-6, .5, .999; EVERY refinement step of approximate_score with g >= 1e-9 and the final score(): P(S>=t+d) <= p and P(S>=u-d) >= p for the largest attainable u < t-d, d = (M+2)g; panics and >40 steps are violations. Plus the `reuse` histories on one TfmPvalue object (as C12).',
         "level_note": 'Trusted: brute-force oracle; 1e-6 allowance; floor 64 ulp on the final margin only.',
         "technique": 'bounded-exhaustive enumeration of matrices x backgrounds x p-values x every refinement step against a brute-force exact distribution',
         "level": "exploration", "package": "vx-pval", "profiles": ["rel", "chk"],
@@ -238,7 +238,7 @@ PROPS.update({
 
 PROPS.update({
     "C14": {
-        "level_text": "Fault enumeration over the stream environment: writer-generated motif files (7 readers; record lists of 1..300 records rotating every width {1,2,7,25}, cell-content mode incl. magnitudes {0,1,9,10,99999,u32::MAX}, metadata presence mask, all 24 column orders + wildcard layouts, writer styles, CRLF, VV header) are read through a scripted BufRead whose chunk ends are the answers of a deviation-bounded choice explorer: no cut and every single cut for every file, every pair of cuts for files <= 400 bytes (quick <= 260), restricted triples (thorough), every uniform chunk size 1..=128, 4096, 8192; the bundled corpora (JASPAR2024.pwm, prodoric.transfac, tests/*) under uniform sizes, strided single cuts and all pairs for the small files with a differential oracle.",
+        "level_text": "Fault enumeration over the stream environment: writer-generated motif files (7 readers; record lists of 1..300 records rotating every width {1,2,7,25} plus single records of width 100 and 101 (three-digit position labels), cell-content mode incl. magnitudes {0,1,9,10,99999,u32::MAX}, metadata presence mask, all 24 column orders + wildcard layouts, writer styles, CRLF, VV header) are read through a scripted BufRead whose chunk ends are the answers of a deviation-bounded choice explorer: no cut and every single cut for every file, every pair of cuts for files <= 400 bytes (quick <= 260), restricted triples (thorough), every uniform chunk size 1..=128, 4096, 8192; the bundled corpora (JASPAR2024.pwm, prodoric.transfac, tests/*) under uniform sizes, strided single cuts and all pairs for the small files with a differential oracle.",
         "level_note": "Trusted: the writer + record model (expected observation computed without lightmotif-io), std::io::BufRead::read_until/read_line semantics, nom's float = str::parse (read in nom 7.1.3). The full product of the per-record dimensions is covered by rotation inside multi-record files, not enumerated as a product. TRANSFAC entries are compared as correctly rounded f32; to_counts() only when every count is exact in f32. No I/O errors injected.",
         "technique": "deviation-bounded choice exploration of fill_buf answers (chunkings with <= d cuts) + uniform chunk sizes over writer-generated files, reference = the written record list; differential oracle on bundled corpora",
         "level": "fault_enumeration",
@@ -252,7 +252,7 @@ PROPS.update({
         ],
     },
     "C15": {
-        "level_text": "Fault enumeration on reader inputs: ALL byte strings of length <= 4 (thorough <= 6) over a 12-symbol alphabet incl. the empty input; ALL sequences of <= 5 (6) lines from per-format line menus with/without final newline; for small valid files of every reader every prefix, every single-byte deletion, every position x substitution/insertion of a 19-byte alphabet (thorough: all 256 byte values), line-level and token-level structural faults (ragged rows, header without matrix, duplicated symbol line, missing final newline, numeric overflow tokens), pairs of faults at line-structure positions (thorough), the bundled test files as bases (thorough); each under chunkings {whole, 1-byte chunks, one cut at the fault}. Reader::new and every next() run under catch_unwind; the stream allows 10*(len+10) fill_buf calls (hang), len+2 records before Err/None (livelock), 20 s watchdog.",
+        "level_text": "Fault enumeration on reader inputs: ALL byte strings of length <= 4 (thorough <= 6) over a 12-symbol alphabet incl. the empty input; ALL sequences of <= 5 (6) lines from per-format line menus with/without final newline; for small valid files of every reader every prefix, every single-byte deletion, every position x substitution/insertion of a 19-byte alphabet (thorough: all 256 byte values), line-level and token-level structural faults (ragged rows, header without matrix, duplicated symbol line, missing final newline, numeric overflow tokens), runs of >= 96 bytes of valid 2/3/4-byte UTF-8 characters inserted at every position with every alignment (pad 0..3), pairs of faults at line-structure positions (thorough), the bundled test files as bases (thorough); each under chunkings {whole, 1-byte chunks, one cut at the fault}. Reader::new and every next() run under catch_unwind; the stream allows 10*(len+10) fill_buf calls (hang), len+2 records before Err/None (livelock), 20 s watchdog.",
         "level_note": "Trusted: catch_unwind isolation, the scripted BufRead. Two further next() calls after the first error and one after end of input are probed for panics only (signature phase after-error / after-end). I/O errors of the stream are not injected.",
         "technique": "exhaustive enumeration of short inputs and of single/double faults in valid files x chunkings, monitors: catch_unwind, fill_buf budget, record horizon, watchdog",
         "level": "fault_enumeration",
@@ -268,7 +268,7 @@ PROPS.update({
 
 PROPS.update({
     "C17": {
-        "level_text": "Model checking of one real StripedSequence object inside embedded CPython: explicit-state BFS by re-execution on fresh Python objects (quick: all operation sequences to depth 3; thorough: to the fixpoint of the canonical key, depth 8) for 8 sequences x 3 motif families (create->normalize->log_odds, integer-valued ScoringMatrix, create().pssm with -inf cells; widths 3/7/15/40) x 3 forced dispatcher arms over {calculate, scan(3 thresholds x block 1/3/256) drained, max, argmax, threshold, copy, memoryview held, other-alphabet calculate, scanner held across reuse}; every transition compared with a pure-Python reference. Plus complete product enumerations of the stateless entry points (create incl. all short DNA sequence sets, CountMatrix, normalize x log_odds(background, base), ScoringMatrix, pvalue/score x {meme, tfmpvalue} against the core library, reverse_complement/max_score, load of generated and bundled files through 7-11 source kinds) and a 156-entry argument-error menu with child-process isolation for entries that may hang or abort.",
+        "level_text": "Model checking of one real StripedSequence object inside embedded CPython: explicit-state BFS by re-execution on fresh Python objects (quick: all operation sequences to depth 3; thorough: to the fixpoint of the canonical key, depth 8) for 8 sequences x 3 motif families (create->normalize->log_odds, integer-valued ScoringMatrix, create().pssm with -inf cells; widths 3/7/15/40) x 3 forced dispatcher arms over {calculate, scan(3 thresholds x block 1/3/256) drained, max, argmax, threshold, copy, memoryview held, other-alphabet calculate, scanner held across reuse}; every transition compared with a pure-Python reference. Plus complete product enumerations of the stateless entry points (create incl. all short DNA sequence sets, CountMatrix, normalize x log_odds(background, base), ScoringMatrix, pvalue/score x {meme, tfmpvalue} against the core library, reverse_complement/max_score, load of generated and bundled files through 7-11 source kinds) and a 156-entry argument-error menu with child-process isolation for entries that may hang or abort; plus `motif_histories`: ALL operation sequences of length <= 4 (5 thorough) on ONE ScoringMatrix object (p-value / score queries with both methods, score_distribution view, max_score, calculate, reverse_complement continuing on the result), the last result compared with a fresh, independently constructed equivalent object.",
         "level_note": "Trusted: refmodel.py (f64 scores with recursive-summation bound, exact for integer matrices; (count+pseudo)/total -> f/b -> log_base with (K+3)/(K+6)-rounding tolerances; own file writers); for p-values the core library is the oracle by the wording of the statement. BFS key is model-derived (Python exposes no look-ahead-row accessor). An abort inside a non-isolated space shows as a shard crash (machinery), not an attributed violation. NaN / +inf cells, block size 0, zero-width motifs, p outside (0,1): only no-panic / no-hang is demanded. Buffer details and negative indices are C18's.",
         "technique": "explicit-state BFS by re-execution over Python-visible reuse histories of one striped sequence + bounded-exhaustive product enumeration of stateless entry points and an argument-error menu, against pure-Python reference models / the core library",
         "level": "model_checking",
